@@ -428,6 +428,29 @@ def run(ctx, rep):
     rep.rule('C08.T', "times / dates given as Python numbers enter the computation at the requested precision: a tensor built from them without a dtype (torch's default float32) is neither computed with nor converted afterwards")
     dtypes.check_default_precision(ctx, rep, 'C08.T', ['torchtree.evolution.coalescent'], 3)
     dtypes.check_default_precision_attributes(ctx, rep, 'C08.T', ['torchtree.evolution.coalescent'])
+    # … and as they are: no event time is rounded / truncated on its way into the density (a rounded sampling time moves the event, and with a small time unit — substitutions
+    # per site — 6 decimals are most of the value).  The piecewise-constant constructs of C12.D, read on coalescent.py with the heights as operand
+    from props import c12
+    from sa.util import local_assignments
+    mco = ctx.prog.module('torchtree.evolution.coalescent')
+    nfn = 0
+    for fn_ in [f for f in ast.walk(mco.tree) if isinstance(f, ast.FunctionDef) and f.name in ('log_prob', '_sorted_terms', 'sufficient_statistics', 'maximum_likelihood', '_call')]:
+        nfn += 1
+        defs_ = local_assignments(fn_)
+        cl_ = getattr(fn_, '_parent', None)
+        scope_ = f"{cl_.name}.{fn_.name}" if isinstance(cl_, ast.ClassDef) else fn_.name
+        for node, kind, text in c12.constructs(fn_):
+            if kind != 'zero-derivative':
+                continue
+            operand = node.args[0] if (isinstance(node.func.value, ast.Name) and node.func.value.id == 'torch' and node.args) else node.func.value
+            if c12.shape_derived(operand, defs_) or c12.literal_only(operand):
+                continue
+            rep.bad('C08.T', f"coalescent::{scope_}::{norm_text(node)[:50]}::event-times-enter-as-they-are", where(mco, node), {'construct': text[:80]},
+                    f"{scope_}: `{text[:60]}` rounds a value computed from the node heights: the events the density is evaluated for are no longer the ones of the tree (tips within the "
+                    f"rounding step are merged, all others are moved), by an amount that is most of the value when times are in substitutions per site")
+    rep.ok('C08.T', 'coalescent::event-times-enter-as-they-are::scanned', '', {'functions_scanned': nfn})
+    if nfn < 10:
+        rep.incomplete('C08.T', 'rounding', '', f"only {nfn} density functions found in coalescent.py")
     dtypes.check_work_buffers(ctx, rep, 'C08.T', ['torchtree.evolution.coalescent'])        # no such array today: the rule is kept alive by its embedded example
     rep.rule('C08.O', "vectors in the order of the argument and vectors in sorted order are kept apart: element-wise operations, masked selections, gathers and scatters combine one family only (order-kind analysis of every sorting method of coalescent.py)")
     from sa import orders
